@@ -997,7 +997,7 @@ func init() {
 		ID: "C09",
 		Profiles: []*Profile{
 			{Name: "c09-lifecycle", MinOps: 8, MaxOps: 50, MaxConns: 4, Versions: []string{"1.2.3", ""}, Protocol: true, Prologue: 40,
-				W: weightsWith(map[string]int{"badreq": 0, "burst": 0, "auth": 1, "call": 4, "new": 1, "mutate": 4, "custom": 1, "silent": 0, "sysreset": 2, "qmutate": 0, "qevent": 2,
+				W: weightsWith(map[string]int{"badreq": 0, "burst": 0, "auth": 1, "call": 4, "new": 1, "mutate": 4, "custom": 1, "silent": 0, "sysreset": 2, "qmutate": 0, "qevent": 2, "aliasburst": 5,
 					"delete": 5, "reaccess": 1, "token": 1, "httpget": 3, "httppost": 1, "subscribe": 16, "get": 6, "unsubscribe": 14, "close": 4, "connect": 5, "sleep": 3}),
 				AccessOut: map[string]int{"grant": 12, "deny": 2, "denied": 1, "timeout": 1},
 				GetOut:    map[string]int{"ok": 14, "notfound": 3, "err": 1, "timeout": 2},
